@@ -12,7 +12,7 @@ import common as c
 
 PID = "C20"
 MANIFEST = {
-    "text": "33 Coq theorems, 16 over ALL doubles, all library-oracle behaviours meeting stated hypotheses: the display "
+    "text": "35 Coq theorems, 16 over ALL doubles, all library-oracle behaviours meeting stated hypotheses: the display "
             "text matches the numeral grammar (sign, integer digits grouped in threes, fraction | mantissa e exponent | "
             "NaN/Infinity/-Infinity) for every valid double (shape hypotheses on {:.N}/{:.14e}/parse + coarse bounds on "
             "log10/powi; Flocq no-overflow proof); grouping/trimming/separator insertion change no value; integers in "
@@ -21,10 +21,11 @@ MANIFEST = {
             "specifications of the library calls (integers: error 0; scientific range: <= 1/2 unit; standard "
             "non-integers, repaired code: <= 5/8 unit, Flocq real analysis); the executable library models the DISPLAY "
             "correspondence runs (fmt_prec_exec, fmt_exp14_exec, parse_f64_exec, powi_exec) are PROVED to satisfy those "
-            "specifications (C20_fmt_prec_model_shape/_value/_accurate: {:.N} = round-half-even of the exact binary "
+            "specifications (C20_fmt_prec_model_shape/_value/_half_even/_accurate: {:.N} = round-half-even of the exact binary "
             "expansion at N digits, every N; C20_e10_model_exact + C20_fmt_exp14_model_correct: {:.14e} = 15 correctly "
             "rounded significant digits incl. carry, for valid doubles; C20_parse_model_nearest/_close: parse = IEEE "
-            "nearest-even of N/10^k; C20_powi_model_*), so the former Prop C20_accuracy_full is the theorem "
+            "nearest-even of N/10^k, equal to C16's reference rn_decimal (C20_parse_model_is_C16_reference); "
+            "C20_powi_model_*), so the former Prop C20_accuracy_full is the theorem "
             "C20_accuracy_exec (only hypothesis: log10_sane on libm's log10, shown satisfiable) and "
             "C20_accuracy_exact_library has no hypothesis (exact floor-log10 model); likewise well-formedness and "
             "absence of panics for the executable model under log10_sane alone (C20_wellformed_exec, C20_total_exec; "
@@ -36,7 +37,7 @@ MANIFEST = {
     "note": "trusted: Coq kernel + vm_compute; hand transcription of format_display_number and helpers (validated by "
             "DISPLAY); library oracles log10/powi/{:.N}/{:.14e}/parse::<f64> are Section variables in the theorems "
             "(shape / correctness hypotheses stated in each theorem) and exact Z implementations when running "
-            "(validated by ORACLE streams; log10 by lookup of the real function's values); axioms: none for 15 "
+            "(validated by ORACLE streams; log10 by lookup of the real function's values); axioms: none for 16 "
             "theorems, the Flocq/Reals axioms of the allow-list for C20_wellformed_total, "
             "C20_accuracy_partial_standard, C20_accuracy, C20_powi_model_*, C20_fmt_prec_model_accurate, "
             "C20_e10_model_exact, C20_fmt_exp14_model_correct/_shape, C20_parse_model_*, C20_powi_model_bounds, "
